@@ -25,6 +25,11 @@ def run(ctx):
     for i, s in enumerate(rnd):
         s["cv"] = 1 if (i % 4 == 3 and not s["fixed"]) else 0
     M.run_and_validate(ctx, rnd, "rnd", M.C05_INV)
+    # (d) end to end: the real engine on the real coupling over an atomic model; every sample's discounted payoffs are
+    # recomputed by TLC from the paths the engine handed to the statistics (Run.tla)
+    tr = ctx.trace_path("run")
+    ctx.drive("run_run", [tr, ctx.tier, ctx.seed])
+    ctx.validate("Trace_Run", "Trace_Run.cfg", tr)
     ctx.assumptions += [
         "ScriptedCoupling stands for the coupling process: the engine's bookkeeping does not depend on how a sample is simulated",
         "payoff dimension 1 (the multilevel path manager cannot store vector payoffs: np.array([payoff, 0.0]) raises)",
